@@ -52,6 +52,7 @@ func loadModule(dir string, patterns []string, overlay map[string][]byte, modfil
 			p.Build()
 		}
 	}
+	effects = newEffectDB(prog)
 	specs, err := LoadSpecs(pkgs)
 	if err != nil {
 		return nil, err
